@@ -51,6 +51,32 @@ func (f *TMemoryOutputBuffer) Write(buf []byte) (int, error) {
 	return f.TMemoryBuffer.Write(buf)
 }
 
+// WriteString writes the string to the buffer. Returns ErrTooLarge if the
+// write would cause the buffer to exceed its limit. Without this override the
+// method promoted from the embedded buffer would bypass the limit (Thrift
+// protocols write strings through it).
+func (f *TMemoryOutputBuffer) WriteString(s string) (int, error) {
+	if f.limit > 0 && uint(len(s)+f.Len()) > f.limit {
+		f.Reset()
+		return 0, thrift.NewTTransportException(
+			TRANSPORT_EXCEPTION_REQUEST_TOO_LARGE,
+			fmt.Sprintf("Buffer size reached (%d)", f.limit))
+	}
+	return f.TMemoryBuffer.WriteString(s)
+}
+
+// WriteByte writes the byte to the buffer. Returns ErrTooLarge if the write
+// would cause the buffer to exceed its limit.
+func (f *TMemoryOutputBuffer) WriteByte(c byte) error {
+	if f.limit > 0 && uint(1+f.Len()) > f.limit {
+		f.Reset()
+		return thrift.NewTTransportException(
+			TRANSPORT_EXCEPTION_REQUEST_TOO_LARGE,
+			fmt.Sprintf("Buffer size reached (%d)", f.limit))
+	}
+	return f.TMemoryBuffer.WriteByte(c)
+}
+
 // Reset clears the buffer
 func (f *TMemoryOutputBuffer) Reset() {
 	f.TMemoryBuffer.Reset()
